@@ -845,6 +845,9 @@ func (e *SpecEnv) evalCall(x *ECall) SV {
 					e.fail("ghostvar(NAME)")
 				}
 				return SV{t: fc.comp(e.cur, "G|v|"+id.Name, "Int"), typ: mathInt}
+			case "inblock":
+				// inblock(p, s): pointer p is the address of an element of the backing array of slice s (any index) (ext_crypto.go)
+				return e.inblockBuiltin(x)
 			case "seqpart":
 				// seqpart(a, off, n): the byte string held by the window [off, off+n) of a byte array VALUE or slice (ext_crypto.go)
 				return e.seqpartBuiltin(x)
